@@ -289,6 +289,16 @@ def e2e_scenario(bins, idx, ntargets, rng, kinds=None, failing=False, listener=F
             tasks.append({"target": runlib.P(tp), "stream": stream, "kind": kind, "ran": tp in completed, "written_len": len(data), "filters_ok": filters_ok,
                           "stored_len": len(stored) if stored is not None else -1, "stored_equal": eq, "first_diff": first_diff,
                           "foreign": foreign, "shown": shown_flag, "show_equal": show_eq})
+        # `log show` shows this run's tasks and nothing else: every header in its output names a (target, command) of the run
+        import re as _re
+        stale = [m.group(0) for m in _re.finditer(rb"(?m)^\[monorail \| \x1b\[38;5;(?:81|214)m(?:stdout|stderr)\.zst\x1b\[0m \| [^\n]* \| [^\n|]*\]$", shown)
+                 if m.group(0) + b"\n" not in headers.values()]
+        if stale and tasks:
+            for t in tasks:
+                if t["shown"]:
+                    t["show_equal"] = False
+                    t["stale_headers"] = len(stale)
+                    break
         return {"ev": "e2e", "scenario": idx, "rc": res["rc"] if res["rc"] is not None else -9, "want_rc": 1 if failing else 0, "tasks": tasks,
                 "stderr": res["stderr"].decode("utf-8", "replace")[-300:]}
     finally:
